@@ -133,6 +133,22 @@ func (w *World) resolveType(pkg *PkgInfo, text string) types.Type {
 				}
 			}
 		}
+		// any package of the loaded program (used by the stdlib specs)
+		var found types.Type
+		for _, sp := range w.prog.AllPackages() {
+			if sp.Pkg.Name() == pn {
+				if o := sp.Pkg.Scope().Lookup(tn); o != nil {
+					if _, isT := o.(*types.TypeName); isT {
+						if found == nil || len(sp.Pkg.Path()) < 12 {
+							found = o.Type()
+						}
+					}
+				}
+			}
+		}
+		if found != nil {
+			return found
+		}
 		cfail("unknown type %s", text)
 	}
 	if pkg != nil {
@@ -187,6 +203,12 @@ func (e *Env) tr(x CExpr) Val {
 		case "*":
 			p := e.tr(n.X)
 			return e.deref(p)
+		case "&":
+			if e.x == nil {
+				cfail("address-of in a pure context")
+			}
+			a, t := e.x.lvalueAddr(e, n.X)
+			return Val{S: a, Sort: "Addr", T: types.NewPointer(t)}
 		}
 		cfail("unary %s", n.Op)
 	case *CBinary:
@@ -556,7 +578,11 @@ func (e *Env) qualified(p *types.Package, name string) Val {
 		return constVal(e.w, ssa.NewConst(c.Val(), c.Type()))
 	case *types.Var:
 		// global variable: its value (e.g. io.EOF)
-		return e.x.globalValue(e.st, p.Path()+"."+name, c.Type())
+		gv := e.x.globalValue(e.st, p.Path()+"."+name, c.Type())
+		if gv.Sort == "Iface" {
+			e.addSide(sand(snot(app("=", gv.S, "inil")), app("sentinel", gv.S)))
+		}
+		return gv
 	}
 	cfail("unsupported qualified identifier %s.%s", p.Name(), name)
 	return Val{}
@@ -667,6 +693,14 @@ func (e *Env) call(n *CCall) Val {
 		return intV(app("max_", e.trI(n.Args[0]), e.trI(n.Args[1])))
 	case "chr":
 		return Val{S: app("chr", e.trI(n.Args[0])), Sort: "Str", T: types.Typ[types.String]}
+	case "str":
+		// str(b): the string made of the bytes of b (what string(b) yields)
+		v := e.tr(n.Args[0])
+		if v.Sort != "Slice" || e.st == nil {
+			cfail("str(b): b must be a []byte in a heap context")
+		}
+		_, cur := e.w.comp(e.st, "Int:uint8")
+		return Val{S: app("bytes2str", cur, v.S), Sort: "Str", T: types.Typ[types.String]}
 	case "itoa":
 		return Val{S: app("itoa", e.trI(n.Args[0])), Sort: "Str", T: types.Typ[types.String]}
 	case "fresh":
@@ -683,6 +717,21 @@ func (e *Env) call(n *CCall) Val {
 			return boolV(app("=>", snot(app("=", app("sarr", v.S), "anil")), app(">=", app("oid", app("sarr", v.S)), base)))
 		}
 		cfail("fresh() of %s", v.Sort)
+	case "visited":
+		// visited(k): key k has been handed out by the map range of the current loop
+		if e.inLoop == nil || e.st == nil {
+			cfail("visited() outside a map-range loop contract")
+		}
+		rg := mapRangeOf(e.inLoop)
+		if rg == nil || e.st.iters == nil || e.st.iters[rg] == "" {
+			cfail("visited(): the loop is not a map range")
+		}
+		k := e.tr(n.Args[0])
+		return boolV(app("select", e.st.iters[rg], k.S))
+	case "sentinel":
+		// sentinel(e): e is one of the package-level error values (io.EOF, ...), not an error made by Errorf/New
+		v := e.tr(n.Args[0])
+		return boolV(app("sentinel", v.S))
 	case "isnil":
 		v := e.tr(n.Args[0])
 		return boolV(app("=", v.S, nilOf(v).S))
